@@ -7,8 +7,10 @@ CONSTANTS
   GraphN = 6
   LemmaN = 4
   LemmaL = 2
+  LoopN = 5
 INVARIANT InvSeg
 INVARIANT InvIdx
 INVARIANT InvGraph
 INVARIANT InvLemma
+INVARIANT InvLoop
 CHECK_DEADLOCK FALSE
